@@ -73,7 +73,7 @@ Definition check_case08 (c8 : case08) : verdict :=
           else if negb (list_eqb2 same_step (io_steps io) (c_steps08 c8)) then VBad "the two printings of the steps differ"
           else
             let g := if so_exact_guard so then model_guard (c_stores c) (c_labels c) r else guard_of (so_guard so) in
-            let outs := scatter_outcomes (c_stores c) (so_before so) (so_group so) g r in
+            let outs := scatter_outcomes (c_stores c) (so_before so) (so_group so) g (fun x => memZ x (c_rule_ok c)) r in
             if existsb (fun o => targets_eqb (o_targets o) (placement (rs_peers (io_final io)))
                                  && ((o_leader o =? 0) || (o_leader o =? rs_leader (io_final io)))
                                  && C08_Builder.plan_ok (goal_of_outcome r o) (c_region08 c8) (c_steps08 c8)) outs
